@@ -370,7 +370,14 @@ def s7(ctx, rid):
     for f in prog.fns.values():
         if not (f.is_coroutine and f.parent and prog.fns[f.parent].trait_item == 'blob::index::core::FileIndexTrait::from_records'):
             continue
-        pcalls = [c for c in f.calls if any(t in pos for t in prog.resolve(c))]
+        def reaches_positional(t, depth=2):
+            if t in pos:
+                return True
+            g = prog.fns.get(t)
+            if g is None or depth <= 0 or t in app or not g.file.startswith('src/blob/index/'):
+                return False
+            return any(x.name != 'poll' and any(reaches_positional(t2, depth - 1) for t2 in prog.resolve(x)) for gid in prog.family(t) for x in prog.fns[gid].calls)
+        pcalls = [c for c in f.calls if c.name != 'poll' and any(reaches_positional(t) for t in prog.resolve(c))]
         acalls = [c for c in f.calls if any(t in app for t in prog.resolve(c))]
         for pc in pcalls:
             n += 1
